@@ -35,6 +35,7 @@ static P_FINISHED_BY_OTHER: AtomicU64 = AtomicU64::new(0);
 static P_ENGINE: [AtomicU64; 6] = [AtomicU64::new(0), AtomicU64::new(0), AtomicU64::new(0), AtomicU64::new(0), AtomicU64::new(0), AtomicU64::new(0)];
 static P_DECODES: AtomicU64 = AtomicU64::new(0);
 static P_CROWDS: AtomicU64 = AtomicU64::new(0);
+static P_CLONES: AtomicU64 = AtomicU64::new(0);
 static P_DIRECT_POLY: AtomicU64 = AtomicU64::new(0);
 
 const ENGINE_NAMES: [&str; 6] = ["Naive", "NoSimd", "Ssse3", "Avx2", "DefaultEngine", "SlowPoly(NoSimd)"];
@@ -534,6 +535,19 @@ fn scenario() {
         })
         .collect();
     let mut jobs = jobs;
+    // one execution in five is a set of clones: every thread runs the same configuration on the same data with the
+    // same loss pattern (replicas serving one hot object); state the crate shares between objects is then keyed
+    // identically by all of them at the same moment
+    if rng.gen_range(0..5u32) == 0 {
+        let proto = jobs[0].clone();
+        for j in jobs.iter_mut().skip(1) {
+            let (rounds, handover) = (j.rounds, j.handover);
+            *j = proto.clone();
+            j.rounds = rounds.max(1);
+            j.handover = handover && !crowd;
+        }
+        P_CLONES.fetch_add(1, Ordering::Relaxed);
+    }
     if crowd {
         P_CROWDS.fetch_add(1, Ordering::Relaxed);
     } else if rng.gen_range(0..4u32) == 0 {
@@ -783,6 +797,7 @@ fn cmd_worker(map: &BTreeMap<String, String>) -> i32 {
         .with("handovers", J::u(P_HANDOVERS.load(Ordering::Relaxed)))
         .with("finished_by_other", J::u(P_FINISHED_BY_OTHER.load(Ordering::Relaxed)))
         .with("crowds", J::u(P_CROWDS.load(Ordering::Relaxed)))
+        .with("clones", J::u(P_CLONES.load(Ordering::Relaxed)))
         .with("direct_poly", J::u(P_DIRECT_POLY.load(Ordering::Relaxed)))
         .with("parked", J::u(P_PARKED.load(Ordering::Relaxed)))
         .with("lazy", J::u(P_LAZY.load(Ordering::Relaxed)))
@@ -947,7 +962,7 @@ fn cmd_check(map: &BTreeMap<String, String>) -> i32 {
         .with("scheduling_steps", J::u(sum("steps")))
         .with("runs_per_hour", J::u(if wall > 0.0 { (execs as f64 / wall * 3600.0) as u64 } else { 0 }))
         .with("faults_fired", J::obj().with("F12.context_switches", J::u(sum("context_switches"))).with("F12.preemptions", J::u(sum("preemptions"))).with("object_handed_over_mid_round", J::u(sum("handovers"))))
-        .with("probes", J::obj().with("encode_rounds", J::u(sum("encode_rounds"))).with("decode_rounds", J::u(sum("decode_rounds"))).with("round_finished_by_a_different_thread", J::u(sum("finished_by_other"))).with("executions_with_17_to_24_threads", J::u(sum("crowds"))).with("threads_starting_with_a_direct_eval_poly_call", J::u(sum("direct_poly"))).with("codecs_left_in_thread_local_storage_at_thread_exit", J::u(sum("parked"))).with("shards_whose_as_ref_waits_for_another_thread", J::u(sum("lazy"))).with("rounds_of_decoders_that_migrate_between_threads_between_rounds", J::u(sum("migrant_rounds"))).with("threads_per_engine", engines))
+        .with("probes", J::obj().with("encode_rounds", J::u(sum("encode_rounds"))).with("decode_rounds", J::u(sum("decode_rounds"))).with("round_finished_by_a_different_thread", J::u(sum("finished_by_other"))).with("executions_with_17_to_24_threads", J::u(sum("crowds"))).with("executions_whose_threads_all_run_the_same_configuration_data_and_loss_pattern", J::u(sum("clones"))).with("threads_starting_with_a_direct_eval_poly_call", J::u(sum("direct_poly"))).with("codecs_left_in_thread_local_storage_at_thread_exit", J::u(sum("parked"))).with("shards_whose_as_ref_waits_for_another_thread", J::u(sum("lazy"))).with("rounds_of_decoders_that_migrate_between_threads_between_rounds", J::u(sum("migrant_rounds"))).with("threads_per_engine", engines))
         .with("components", J::obj().with("real", J::Arr(vec![J::s("all codecs, engines and table initialisers of /repo, built through the shadow manifest with --cfg verif_shuttle")])).with("stub", J::Arr(vec![J::s("std::sync::LazyLock replaced by hook H4's shim (a shuttle Once that is fresh in every execution, so every execution runs the real initialisers again under its own schedule; the table built is compared byte for byte with the one a sequential warm-up execution built, which is also the one kept for the process); threads / mpsc / Mutex of the scenario are shuttle's")])))
         .with("exhaustive", J::Bool(false));
     let evidence = J::obj()
